@@ -1996,7 +1996,7 @@ def r24_count_protocol(facts):
         order = {id(x): i for i, x in enumerate(walk(broot))}
         inst_base = "count-write:%s" % b["def"]
         mth = callee(n).split("::")[-1]
-        if mth != "set":
+        if mth not in ("set", "replace") or len(n["args"]) != 2:
             c.bad(inst_base + "#" + mth, loc(b, n), "consumer counter written with Cell::%s" % mth)
             continue
         val = strip(n["args"][1])
@@ -2022,6 +2022,9 @@ def r24_count_protocol(facts):
                 if counter_read(init) and order.get(id(strip(init)), order.get(id(init), -1)) > order.get(id(n), -1):
                     return ("after", 0)
                 return r
+            # `cell.replace(v)` stores v and hands back what the counter held before this very write
+            if peel(e0) is n and mth == "replace":
+                return ("before", 0)
             if counter_read(e0):
                 if any(x is peel(e0) or x is e0 for x in walk(n)):
                     return ("before", 0)
